@@ -1099,6 +1099,9 @@ PROPS = {
             "counting statements",
             "Kruskal == Boruvka weight; tree spans all basins reachable from the root",
             "tree entries are in non-decreasing weight order (needs a slot -> position ghost map; not done)",
+            "loop-level Kruskal clauses with the full step contract (groups basin.kruskal.loop.tree / .classes, thorough tier: `after the scan the "
+            "endpoints of every edge are in one class`, union-find re-initialised by resize+clear) did not terminate within 25-40 min on cvc5 while this "
+            "module was built; the step-level clause (basin.kruskal.step) and the tree/reset slice (basin.kruskal.tree) are decided",
         ],
     ),
     "C09": dict(
